@@ -721,4 +721,138 @@ theorem md_abs_f32 (h : MdOK size outSize) {x off : F32} (hx : MdOp x) (ho : MdO
   rw [hu] at ep eh eq er ⊢
   linarith
 
+/-! ## the converter's circles (`parsepath.go`: `cx*outSize/size − (outSize/2 + off)`, another association) -/
+
+/-- a circle's radius as computed: `r * outSize / size` -/
+def mdCircR (size outSize a : F32) : F32 := a * outSize / size
+/-- a circle's centre coordinate as computed: `c * outSize / size − (outSize/2 + off)` -/
+def mdCircF (size outSize off a : F32) : F32 := a * outSize / size - (outSize / F32.ofInt 2 + off)
+
+/-- **`md_circle_r_f32`**: `fl(fl(x·outSize) / size)` — two roundings: within
+    `(2u + u²)·|x·outSize/size| + 2^21·2^-150` of `x·outSize/size` -/
+theorem md_circle_r_f32 (h : MdOK size outSize) {x : F32} (hx : MdOp x) :
+    Fn (mdCircR size outSize x) ∧
+    |val (mdCircR size outSize x) - val x * val outSize / val size| ≤
+      (2 * u + u * u) * |val x * val outSize / val size| + 2097152 * tiny := by
+  have hu : u = 1 / 16777216 := rfl
+  obtain ⟨h0, _⟩ := h.ratio
+  have hs : 0 < |val size| := abs_pos.2 h0
+  have ht0 := tiny_pos
+  have ht1 := tiny_le_one
+  have bxo : |val x * val outSize| ≤ 1048576 * 1048576 := by
+    rw [abs_mul]; exact mul_le_mul hx.2 h.o_hi (abs_nonneg _) (by norm_num)
+  obtain ⟨fp, ep⟩ := mul_mix hx.1 h.fo (le_maxv (by linarith))
+  have sp := mix_abs_le ep
+  have hinv : 1 / |val size| ≤ 1048576 := by
+    rw [div_le_iff₀ hs]; have := h.s_lo; linarith
+  have hinv0 : 0 ≤ 1 / |val size| := by positivity
+  have bp : |val (x * outSize)| ≤ 2199023255552 := by rw [hu] at sp; linarith
+  have bq : |val (x * outSize) / val size| ≤ 2199023255552 * 1048576 := by
+    rw [abs_div, div_eq_mul_one_div]
+    exact mul_le_mul bp hinv hinv0 (by norm_num)
+  obtain ⟨fq, eq⟩ := div_mix fp h.fs h0 (le_maxv (by linarith))
+  refine ⟨fq, ?_⟩
+  change |val (x * outSize / size) - _| ≤ _
+  have t1 := abs_sub_le (val (x * outSize / size)) (val (x * outSize) / val size) (val x * val outSize / val size)
+  have e1 : val (x * outSize) / val size - val x * val outSize / val size =
+      (val (x * outSize) - val x * val outSize) * (1 / val size) := by ring
+  have hinvs : |1 / val size| = 1 / |val size| := by rw [abs_div, abs_one]
+  rw [e1, abs_mul, hinvs] at t1
+  have m1 : |val (x * outSize) - val x * val outSize| * (1 / |val size|) ≤
+      (u * |val x * val outSize| + tiny) * (1 / |val size|) := mul_le_mul_of_nonneg_right ep hinv0
+  have e2 : |val (x * outSize) / val size| = |val (x * outSize)| * (1 / |val size|) := by
+    rw [abs_div, div_eq_mul_one_div]
+  have m2 : |val (x * outSize)| * (1 / |val size|) ≤ ((1 + u) * |val x * val outSize| + tiny) * (1 / |val size|) :=
+    mul_le_mul_of_nonneg_right sp hinv0
+  have e3 : |val x * val outSize / val size| = |val x * val outSize| * (1 / |val size|) := by
+    rw [abs_div, div_eq_mul_one_div]
+  rw [e2] at eq
+  rw [e3]
+  have m3 : tiny * (1 / |val size|) ≤ tiny * 1048576 := mul_le_mul_of_nonneg_left hinv ht0.le
+  have e4 : (u * |val x * val outSize| + tiny) * (1 / |val size|) =
+      u * (|val x * val outSize| * (1 / |val size|)) + tiny * (1 / |val size|) := by ring
+  have e5 : ((1 + u) * |val x * val outSize| + tiny) * (1 / |val size|) =
+      (1 + u) * (|val x * val outSize| * (1 / |val size|)) + tiny * (1 / |val size|) := by ring
+  rw [e4] at m1
+  rw [e5] at m2
+  have g0 : 0 ≤ |val x * val outSize| * (1 / |val size|) := mul_nonneg (abs_nonneg _) hinv0
+  have m4 : u * (|val (x * outSize)| * (1 / |val size|)) ≤
+      u * ((1 + u) * (|val x * val outSize| * (1 / |val size|)) + tiny * (1 / |val size|)) :=
+    mul_le_mul_of_nonneg_left m2 u_pos.le
+  rw [hu] at eq m1 m4 ⊢
+  linarith
+
+/-- **`md_circle_f32`**: a circle's centre coordinate
+    `fl(fl(fl(x·outSize) / size) − fl(fl(outSize/2) + off))` — five roundings: within
+    `5u·(|x·outSize/size| + |outSize/2| + |off|) + 2^22·2^-150` of `x·outSize/size − (outSize/2 + off)` -/
+theorem md_circle_f32 (h : MdOK size outSize) {x off : F32} (hx : MdOp x) (ho : MdOp off) :
+    Fn (mdCircF size outSize off x) ∧
+    |val (mdCircF size outSize off x) - (val x * val outSize / val size - (val outSize / 2 + val off))| ≤
+      5 * u * (|val x * val outSize / val size| + |val outSize / 2| + |val off|) + 4194304 * tiny := by
+  have hu : u = 1 / 16777216 := rfl
+  obtain ⟨h0, hk⟩ := h.ratio
+  obtain ⟨fq, eq⟩ := md_circle_r_f32 h hx
+  change Fn (x * outSize / size) at fq
+  change |val (x * outSize / size) - _| ≤ _ at eq
+  obtain ⟨f2, v2⟩ := ofInt_val 2 (by decide)
+  have v2' : val (F32.ofInt 2) = 2 := by rw [v2]; norm_num
+  have ht0 := tiny_pos
+  have ht1 := tiny_le_one
+  have hH : |val outSize / 2| ≤ 524288 := by
+    rw [abs_div, show |(2:ℚ)| = 2 by norm_num]; have := h.o_hi; linarith
+  obtain ⟨fh, eh⟩ := div_mix h.fo f2 (by rw [v2']; norm_num) (le_maxv (by rw [v2']; linarith))
+  rw [v2'] at eh
+  have hP : |val x * val outSize / val size| ≤ 1048576 * 1099511627776 := by
+    have e : val x * val outSize / val size = val x * (val outSize / val size) := by ring
+    rw [e, abs_mul]; exact mul_le_mul hx.2 hk (abs_nonneg _) (by norm_num)
+  have hP0 := abs_nonneg (val x * val outSize / val size)
+  have hH0 := abs_nonneg (val outSize / 2)
+  have hF0 := abs_nonneg (val off)
+  have hF := ho.2
+  have sq := abs_sub_abs_le_abs_sub (val (x * outSize / size)) (val x * val outSize / val size)
+  have sh := abs_sub_abs_le_abs_sub (val (outSize / F32.ofInt 2)) (val outSize / 2)
+  -- w = fl(h + off)
+  have t1 := abs_add_le (val (outSize / F32.ofInt 2)) (val off)
+  have bw : |val (outSize / F32.ofInt 2) + val off| ≤ maxv := by
+    apply le_maxv; rw [hu] at eh; linarith
+  obtain ⟨fw, ew⟩ := add_err fh ho.1 bw
+  have t2 := abs_sub_le (val (outSize / F32.ofInt 2 + off)) (val (outSize / F32.ofInt 2) + val off)
+    (val outSize / 2 + val off)
+  have e2 : val (outSize / F32.ofInt 2) + val off - (val outSize / 2 + val off) =
+      val (outSize / F32.ofInt 2) - val outSize / 2 := by ring
+  rw [e2] at t2
+  have t3 := abs_add_le (val outSize / 2) (val off)
+  have sw := abs_sub_abs_le_abs_sub (val (outSize / F32.ofInt 2 + off)) (val outSize / 2 + val off)
+  -- r = fl(q − w)
+  have t4 := abs_sub (val (x * outSize / size)) (val (outSize / F32.ofInt 2 + off))
+  have br : |val (x * outSize / size) - val (outSize / F32.ofInt 2 + off)| ≤ maxv := by
+    apply le_maxv; rw [hu] at eq eh ew; linarith
+  obtain ⟨fr, er⟩ := sub_err fq fw br
+  refine ⟨fr, ?_⟩
+  change |val (x * outSize / size - (outSize / F32.ofInt 2 + off)) - _| ≤ _
+  have t5 := abs_sub_le (val (x * outSize / size - (outSize / F32.ofInt 2 + off)))
+    (val (x * outSize / size) - val (outSize / F32.ofInt 2 + off))
+    (val x * val outSize / val size - (val outSize / 2 + val off))
+  have t6 : |val (x * outSize / size) - val (outSize / F32.ofInt 2 + off) -
+      (val x * val outSize / val size - (val outSize / 2 + val off))| ≤
+      |val (x * outSize / size) - val x * val outSize / val size| +
+        |val (outSize / F32.ofInt 2 + off) - (val outSize / 2 + val off)| := by
+    have e : val (x * outSize / size) - val (outSize / F32.ofInt 2 + off) -
+        (val x * val outSize / val size - (val outSize / 2 + val off)) =
+        (val (x * outSize / size) - val x * val outSize / val size) -
+          (val (outSize / F32.ofInt 2 + off) - (val outSize / 2 + val off)) := by ring
+    rw [e]; exact abs_sub _ _
+  rw [hu] at eq eh ew er ⊢
+  linarith
+
+/-- the calls of one circle in terms of the two maps (then `cx − r`: one more rounded subtraction; `±2·r`: exact) -/
+theorem circleCalls_f32 (size offX offY outSize : F32) (adj : UInt8) (needStart : Bool) (c : Md.Circle F32) :
+    GenQ.MdG.circleCalls size offX offY outSize adj needStart c =
+      (let cx := mdCircF size outSize offX c.cx
+       let cy := mdCircF size outSize offY c.cy
+       let r := mdCircR size outSize c.r
+       [if needStart then Call.startPath adj (cx - r) cy else Call.d2 .Y (cx - r) cy,
+        .arc true r r (F32.ofInt 0) false true (F32.ofInt 2 * r) (F32.ofInt 0),
+        .arc true r r (F32.ofInt 0) false true (F32.ofInt (-2) * r) (F32.ofInt 0)]) := rfl
+
 end Ivg.Xf32
